@@ -3,6 +3,9 @@
 import json, os, glob
 HERE = os.path.dirname(os.path.dirname(os.path.abspath(__file__)))
 CHECKS = {
+ "C16": dict(cat="fault_enumeration", tech="exhaustive injection enumeration (every opt-in key x truthy value x level, single and pairs) and policy products (caller flags x environment values x vars-file locations x entry points) on the real pipeline loader and a full conversion, observed by a CPython audit hook plus sentinel files",
+             text="For every capability-bearing item (file/http/command placeholders, template post-processing and finalizer with vars) at every nesting depth, with every injected opt-in key at every level and default caller arguments, no subprocess/file/network/exec event may occur and the item must fail with a Sigma security (or configuration) error; with opt-in by argument or environment the event must occur (positive control); vars files outside the allowed directories (outside, symlink, prefix-sharing sibling) are never executed when directories are in force.",
+             note="CPython audit events are the observation; caller opt-in not reaching nested pipelines is stricter than required and not judged", ref="§3 C16"),
  "C07": dict(cat="fault_enumeration", tech="exhaustive single-deviation (thorough: pairwise) fault enumeration over every path of every base document x replacement menu, loaded strictly and with collect_errors through class loaders, from_dicts and from_yaml on the real code",
              text="For 13 base documents (rules, one correlation per type incl. aliases/extended condition, filters, collections with global/repeat/reset) every path x 28 replacements (delete, wrong-typed scalars/lists/maps, out-of-range values, non-string keys) is applied; strict loading must succeed or raise a SigmaError, collecting must never raise, errors non-empty iff strict raises, first collected error equals the strict exception.",
              note="YAML-representable data only; SigmaError.__eq__ defines error equality", ref="§3 C07"),
